@@ -52,7 +52,7 @@ C11_Solvent == \A d \in Denom : held[d] >= SumF(Chan, [c \in Chan |-> chan[c][d]
 C11_ChannelBound == \A c \in Chan : \A d \in Denom : credit[c][d] >= 0
 \* holdings move only by an accepted transfer (in) or by handling a packet, ack or timeout (out)
 C11_HeldWriters == Step => \A d \in Denom :
-  /\ held'[d] > held[d] => IsOk("transfer") /\ E.args.denom = d /\ held'[d] = held[d] + E.args.amt
+  /\ held'[d] > held[d] => Ok /\ E.act \in {"transfer", "donate"} /\ E.args.denom = d /\ held'[d] = held[d] + E.args.amt
   /\ held'[d] < held[d] => Ok /\ E.act \in {"recv", "ack", "timeout"} /\ E.args.denom = d /\ held[d] - held'[d] = E.args.amt
 GoodPacket(e) == e.args.form = "ok" /\ e.args.ch \in Chan /\ e.args.denom \in Denom
                    /\ e.args.amt <= chan[e.args.ch][e.args.denom].out
@@ -90,8 +90,10 @@ C12_FailureRefunds == Step /\ Ok /\ (E.act = "timeout" \/ (E.act = "ack" /\ ~E.a
   /\ \/ held' = [held EXCEPT ![d] = @ - a] /\ ubal' = [ubal EXCEPT ![s][d] = @ + a]
      \/ d = "tok" /\ tokFails /\ held' = held /\ ubal' = ubal
 C12_SuccessAckKeeps == Step /\ IsOk("ack") /\ E.args.success => chan' = chan /\ held' = held /\ ubal' = ubal /\ out' = <<>>
-C12_OthersKeepBooks == Step /\ E.act \notin {"transfer", "recv", "ack", "timeout"} /\ ~(legacy /\ E.act = "migrate") =>
+C12_OthersKeepBooks == Step /\ E.act \notin {"transfer", "recv", "ack", "timeout", "donate"} /\ ~(legacy /\ E.act = "migrate") =>
   chan' = chan /\ held' = held /\ ubal' = ubal
+\* money that reaches the contract outside a transfer (plain bank send, cw20 Transfer) is in no channel's books
+C12_DonationNotBooked == Step /\ E.act = "donate" => chan' = chan /\ out' = <<>>
 \* the old storage format credited a channel only on a success acknowledgement: packets in flight at the
 \* upgrade are escrowed but not in the books.  Migration brings the books up to the holdings (sent and
 \* outstanding grow by the same in-flight amount) and moves no money.
